@@ -6,9 +6,11 @@ import (
 	"sort"
 
 	"github.com/relab/hotstuff"
+	"github.com/relab/hotstuff/internal/proto/hotstuffpb"
 	"github.com/relab/hotstuff/protocol/rules"
 	"github.com/relab/hotstuff/security/crypto"
 	"github.com/relab/hotstuff/verif/vbase"
+	"github.com/relab/hotstuff/verif/vk"
 )
 
 // Directed scenarios: schedules that target one specific weakness each (grown mutation-guided: each
@@ -1101,5 +1103,59 @@ func RunPrivateBranch(variant int, ruleset string, rng *vbase.Rng, r *vbase.Resu
 	}
 	c.R.Obs("private_branch_victim_commits", int64(len(c.Mon.commits[victim.Idx])))
 	c.R.Obs("private_branch_public_commits", int64(len(c.Mon.commits[0])))
+	return done()
+}
+
+// RunContentEquivocation: n=4, replica 4 Byzantine and leader of every view. In every view it sends replicas 1 and 2 a block
+// with two commands and replica 3 a block that differs ONLY in how the same bytes are distributed over its commands (one
+// command whose data embeds the second command's header). They are different blocks: replica 3's variant gets one vote,
+// the other variant is certified and replica 3 obtains it through a block request. If the two variants were the same block
+// for the hash / bytes-to-sign, the replicas would commit "the same chain" and execute different commands.
+func RunContentEquivocation(variant int, ruleset string, rng *vbase.Rng, r *vbase.Result, enable func(*Monitors)) *Cluster {
+	cfg := Config{N: 4, Ruleset: ruleset, Scheme: "eddsa", Cache: uint([]int{0, 100}[variant%2]), Leader: "script", Sched: []hotstuff.ID{4}, BatchSize: 1, Clients: true,
+		Profile: "directed:content-equivocation", ByzRules: map[hotstuff.ID]string{}, Scripted: []hotstuff.ID{4}, Label: fmt.Sprintf("content-equivocation/%d", variant)}
+	c, err := NewCluster(cfg, rng, r)
+	if err != nil {
+		r.Inconclusive("cannot build content-equivocation cluster: " + err.Error())
+		return nil
+	}
+	enable(c.Mon)
+	byz := c.Actors[3]
+	st := byz.Byz
+	done := func() *Cluster { c.Mon.atEnd(); c.Close(); return c }
+	c.FaultSteps++
+	c.Start()
+	c.Step = 1
+	gen := hotstuff.GetGenesis()
+	parent, parentQC := gen, hotstuff.NewQuorumCert(nil, 0, gen.Hash())
+	client := uint32(100 + byz.ID)
+	for v := hotstuff.View(1); v <= 8 && c.Panic == nil && len(c.Mon.Viol) == 0; v++ {
+		st.seq += 2
+		two, merged, _ := vk.AmbiguousBatchTwins(client, st.seq-1, CmdData(client, st.seq-1), client, st.seq, CmdData(client, st.seq))
+		tb := hotstuff.NewBlock(parent.Hash(), parentQC, two, v, byz.ID)
+		tpb := hotstuffpb.BlockToProto(tb)
+		tpb.Commands = merged[(variant/2+int(v))%len(merged)]
+		twin := hotstuffpb.BlockFromProto(tpb)
+		c.registerByzBlock(byz, tb)
+		if twin.Hash() != tb.Hash() {
+			c.registerByzBlock(byz, twin)
+		}
+		c.trace(TraceEntry{Kind: "byz", From: byz.Name(), What: "content-equivocate", View: uint64(v)})
+		for i, o := range c.Actors[:3] {
+			if i < 2 {
+				c.enqueue(byz, o, hotstuff.ProposeMsg{ID: byz.ID, Block: tb})
+			} else {
+				c.enqueue(byz, o, hotstuff.ProposeMsg{ID: byz.ID, Block: twin})
+			}
+		}
+		var qc hotstuff.QuorumCert
+		ok := false
+		if !c.roundsUntil(10, func() bool { qc, ok = c.byzQC(byz, tb); return ok }) {
+			c.R.Obs("content_equivocation_setup_failed", 1)
+			return done()
+		}
+		parent, parentQC = tb, qc
+		c.R.Obs("content_equivocations", 1)
+	}
 	return done()
 }
